@@ -31,6 +31,27 @@ CHECKS = {
         'APIs (one of them, Gurobi stopping at SOLUTION_LIMIT with an incumbent, is also reproduced with the real engine). Not '
         'exercised: clp/cpx/msk/cpt interfaces (engines not installed), LMI programs, ECOS_BB on integer programs.',
    technique='deterministic simulation with fault enumeration: real engines behind proxies, every documented failure return injected per interface'),
+ 'C17': dict(machine='M-MULTI', level='exploration', design='3/C17',
+   text='2-3 declared models (ro, dro, deterministic ro programs, lp front end; any mix) are built by interleaved tasks under one '
+        'seeded scheduler, with solve events (and engine faults) on completed models in between. Interference mode: every model '
+        'must give the result of the same declared model built alone, computed before and after the interleaved run. Misuse mode: 20 '
+        'kinds of misuse (cross-model st/operands/sets/ambiguity sets/adaptation, second objective in every pairing, non-scalar '
+        'objective, read-back of unsolved and failed models, ambiguity() after constraints) are injected at random points on objects '
+        'that exist at that instant and must raise at that call.',
+   note='Trusted: engines on healthy calls. The state of a model after a REJECTED call is recorded as an observation, not judged. '
+        'Bounds: <=3 models, <=8 misuse operations per run.',
+   technique='deterministic simulation: seeded interleaving of model-building tasks with injected misuse operations and isolated-build reference'),
+ 'C19': dict(machine='M-DET', level='exploration', design='3/C19',
+   text='The same explicit op list is executed in 6 worlds that differ only in ambient state: fresh interpreters with other '
+        'PYTHONHASHSEED values, global RNG states (seeded and pre-consumed), clock epoch, GC disabled vs collect-with-junk between '
+        'ops, worker thread vs main thread (all compared bit-wise on primal and dual standard forms), and other memory layouts of the '
+        'user arrays (F-order, strided views, read-only, int64; compared structurally and to 1e-12). RNG states must be untouched, '
+        'every user array byte-identical after every op, per-op outcomes identical; a seeded repetition sequence of do_math '
+        '(primal/dual), solve, soc_solve, export and FAILED solves (engine faults, clock jumps) must leave the cached forms unchanged '
+        'and return the same answers.',
+   note='Trusted: the digest covers linear/const/sense/vtype/ub/lb/obj/qmat/xmat; numpy products of user data are not layout-invariant to the '
+        'last bit, hence the 1e-12 comparison for layout worlds only. float32 user data is not compared.',
+   technique='deterministic simulation: identical op list replayed across controlled ambient worlds (hash seed, RNG, clock, GC, thread, array layout) plus seeded repetition/fault sequences'),
  'C13': dict(machine='M-PART', level='exploration', design='3/C13',
    text='Seeded search over adaptation histories: sequences of event-wise and affine adapt() calls (whole decisions and slices, '
         'random scenario labellings, interleaved with other declarations) build partitions and dependency masks; a closed-form '
@@ -92,6 +113,8 @@ def build():
         'engines': [
             {'name': 'M-HIST', 'path': 'machines/hist.py', 'serves_properties': ['C09'], 'kind_free_text': 'build-history simulator (schedules + engine faults)'},
             {'name': 'M-PEER', 'path': 'machines/peer.py', 'serves_properties': ['C11'], 'kind_free_text': 'solver engines as faulty peers behind pass-through proxies'},
+            {'name': 'M-MULTI', 'path': 'machines/multi.py', 'serves_properties': ['C17'], 'kind_free_text': 'interleaved multi-model builder with misuse injection'},
+            {'name': 'M-DET', 'path': 'machines/det.py', 'serves_properties': ['C19'], 'kind_free_text': 'ambient-world replayer (hash seed, RNG, clock, GC, thread, array layout) and repetition sequences'},
             {'name': 'M-PART', 'path': 'machines/part.py', 'serves_properties': ['C12', 'C13'], 'kind_free_text': 'adaptation-history simulator (partitions, dependency masks, read-back)'},
         ],
         'checks': checks,
